@@ -95,6 +95,29 @@ func plans(id, tier string) (Plan, bool) {
 			{Pkg: pkgV2, Harness: "c08_pads", Shards: pick(6, 16)},
 			{Pkg: pkgV2, Harness: "c08_faults", Shards: pick(6, 16)},
 		}}, true
+	case "C09":
+		jobs := []Job{
+			{Pkg: pkgV2, Harness: "c09_frozen", Params: "mode=small", Shards: pick(4, 8)},
+			{Pkg: pkgV2, Harness: "c09_frozen", Params: "mode=corpus", Shards: pick(8, 16)},
+		}
+		for sc := 0; sc < 4; sc++ {
+			jobs = append(jobs, Job{Pkg: pkgV2, Harness: "c09_sched", Instr: "v2coarse", Params: fmt.Sprintf("scenario=%d;threads=2;policy=delay;budget=2", sc), Shards: pick(2, 2)})
+		}
+		for sc := 0; sc < pick(2, 4); sc++ {
+			// every yield site (no calibration filter), one delay
+			jobs = append(jobs, Job{Pkg: pkgV2, Harness: "c09_sched", Instr: "v2coarse", Params: fmt.Sprintf("scenario=%d;threads=2;policy=delay;budget=1;maxsite=100000", sc), Shards: 2})
+		}
+		if th {
+			for sc := 0; sc < 4; sc++ {
+				jobs = append(jobs, Job{Pkg: pkgV2, Harness: "c09_sched", Instr: "v2fine", Params: fmt.Sprintf("scenario=%d;threads=2;policy=delay;budget=2", sc), Shards: 4})
+				jobs = append(jobs, Job{Pkg: pkgV2, Harness: "c09_sched", Instr: "v2coarse", Params: fmt.Sprintf("scenario=%d;threads=2;policy=preemption;budget=2", sc), Shards: 8})
+			}
+			for sc := 4; sc < 6; sc++ {
+				jobs = append(jobs, Job{Pkg: pkgV2, Harness: "c09_sched", Instr: "v2coarse", Params: fmt.Sprintf("scenario=%d;threads=3;policy=delay;budget=2", sc), Shards: 8})
+			}
+		}
+		jobs = append(jobs, Job{Pkg: pkgV2, Harness: "c09_race", Race: true, MaxProcs: 16, Shards: 1})
+		return Plan{Level: "model_checking", Jobs: jobs}, true
 	case "C10":
 		jobs := []Job{}
 		for sh := 0; sh <= 3; sh++ {
